@@ -69,7 +69,7 @@ class C10(Machine):
         cfg = {"case_sensitive": rng.random() < 0.5, "initial_labels": [rng.choice(LABELS) for _ in range(n0)]}
         ops = ["add_new", "add_new", "add_member", "add_known", "new_taxon", "new_taxa", "add_taxa", "require", "require",
                "remove", "remove", "remove_nonmember", "remove_label", "discard_label", "delitem", "sort", "reverse", "clear",
-               "relabel", "relabel", "toggle_mutable", "read_translate", "copy", "deepcopy", "construct", "clone0", "clone1", "clone2", "query", "query"]
+               "relabel", "relabel", "toggle_mutable", "read_translate", "read_csv_unknown", "copy", "deepcopy", "construct", "clone0", "clone1", "clone2", "query", "query"]
         steps = []
         for _ in range(rng.randint(5, 150 if tier == "thorough" else 60)):
             op = rng.choice(ops)
@@ -273,6 +273,26 @@ class C10(Machine):
         elif op == "toggle_mutable":
             ns.is_mutable = not ns.is_mutable
             model.mutable = not model.mutable
+        elif op == "read_csv_unknown":
+            # fault: a distance table that names a taxon the (populated) namespace does not hold is refused; the namespace
+            # must be exactly as it was, including its mutability
+            if not model.members:
+                return
+            import io
+            from dendropy.calculate.phylogeneticdistance import PhylogeneticDistanceMatrix
+            labs = []
+            for u in model.members[:3]:
+                if self.labels[u] not in labs:
+                    labs.append(self.labels[u])
+            labs.append("zz unknown %d" % st["i"])
+            text = "," + ",".join(labs) + "\n" + "".join("%s,%s\n" % (a, ",".join("0" if a == b else "1" for b in labs)) for a in labs)
+            try:
+                PhylogeneticDistanceMatrix.from_csv(io.StringIO(text), taxon_namespace=ns, delimiter=",")
+            except Exception:
+                rec.fault("inadmissible_" + op)
+                return
+            rec.violation("MISSING_ERROR", {"op": op}, "from_csv accepted a label that the populated namespace does not hold")
+            raise StopRun()
         elif op == "read_translate":
             # a reader filling the namespace: a TREES block with TRANSLATE and no TAXA block names two labels nobody holds
             self.nread = getattr(self, "nread", 0) + 1
